@@ -91,7 +91,12 @@ public:
     auto op = op_;
     UNIFEX_ASSERT(op != nullptr);
     unifex::deactivate_union_member(op->sourceOp_);
-    unifex::set_value(std::move(op->receiver_), std::move(values)...);
+    UNIFEX_TRY {
+      unifex::set_value(std::move(op->receiver_), std::move(values)...);
+    }
+    UNIFEX_CATCH(...) {
+      unifex::set_error(std::move(op->receiver_), std::current_exception());
+    }
   }
 
   void set_done() noexcept {
